@@ -285,6 +285,56 @@ theorem decode_sound (s : List Char) (a b : Int) (h : decodeRange s = .ok (a, b)
       · rw [if_neg ht] at h; cases h
   · cases h
 
+theorem newline_not_digit : isDigit '\n' = false := by decide
+
+/-- Completeness of the reader: EVERY string `digits ":" digits` (leading zeros allowed, optionally one final line
+    feed) is accepted with the values of the two digit runs, or refused with `OverflowError` when a value does not fit
+    int64.  With `decode_sound`: the reader accepts exactly this grammar. -/
+theorem decode_complete (d1 d2 tail : List Char) (h1 : d1 ≠ []) (h2 : d2 ≠ [])
+    (hd1 : ∀ c ∈ d1, isDigit c = true) (hd2 : ∀ c ∈ d2, isDigit c = true) (ht : tail = [] ∨ tail = ['\n']) :
+    decodeRange (d1 ++ ':' :: d2 ++ tail) =
+      if digitsValue d1 < 2 ^ 63 ∧ digitsValue d2 < 2 ^ 63 then .ok ((digitsValue d1 : Int), (digitsValue d2 : Int))
+      else .error .overflow := by
+  have e0 : d1 ++ ':' :: d2 ++ tail = d1 ++ ':' :: (d2 ++ tail) := by simp
+  obtain ⟨t1, t2⟩ := takeWhile_run isDigit d1 ':' (d2 ++ tail) hd1 colon_not_digit
+  have ht2 : (d2 ++ tail).takeWhile isDigit = d2 ∧ (d2 ++ tail).dropWhile isDigit = tail := by
+    rcases ht with rfl | rfl
+    · rw [List.append_nil]; exact takeWhile_all isDigit d2 hd2
+    · exact takeWhile_run isDigit d2 '\n' [] hd2 newline_not_digit
+  obtain ⟨t3, t4⟩ := ht2
+  rw [e0]
+  unfold decodeRange
+  simp only [t1, t2, t3, t4]
+  rw [if_neg (by simp [h1, h2]), if_pos ht]
+  unfold int64OfDigits
+  by_cases c1 : digitsValue d1 < 2 ^ 63
+  · by_cases c2 : digitsValue d2 < 2 ^ 63
+    · simp only [c1, c2, if_true, and_self, bind, Except.bind, pure, Except.pure]
+    · simp only [c1, c2, if_true, if_false, and_false, bind, Except.bind]
+  · simp only [c1, if_false, false_and, bind, Except.bind]
+
+example : decodeRange "007:08\n".toList = .ok (7, 8) := by decide
+
+
+/-- Total form of the DateTime round trip for non-negative ranges: what `extratags` writes is read back exactly when
+    both ends fit int64, and is refused with `OverflowError` (never misread) when one does not. -/
+theorem datetime_roundtrip_total (a b : Int) (ha : 0 ≤ a) (hb : 0 ≤ b) :
+    decodeRange (encodeRange a b) = if a < 2 ^ 63 ∧ b < 2 ^ 63 then .ok (a, b) else .error .overflow := by
+  obtain ⟨va, da, na⟩ := natDigits_spec a.toNat
+  obtain ⟨vb, db, nb⟩ := natDigits_spec b.toNat
+  have e1 : ((a.toNat : Nat) : Int) = a := Int.toNat_of_nonneg ha
+  have e2 : ((b.toNat : Nat) : Int) = b := Int.toNat_of_nonneg hb
+  have h := decode_complete (natDigits a.toNat) (natDigits b.toNat) [] na nb da db (Or.inl rfl)
+  rw [List.append_nil] at h
+  unfold encodeRange showInt
+  rw [if_neg (by omega), if_neg (by omega), h, va, vb, e1, e2]
+  have c : (a.toNat < 2 ^ 63 ∧ b.toNat < 2 ^ 63) ↔ (a < 2 ^ 63 ∧ b < 2 ^ 63) := by omega
+  by_cases hc : a < 2 ^ 63 ∧ b < 2 ^ 63
+  · rw [if_pos hc, if_pos (c.mpr hc)]
+  · rw [if_neg hc, if_neg (fun h' => hc (c.mp h'))]
+
+example : decodeRange (encodeRange 5 9223372036854775808) = .error .overflow := by
+  rw [datetime_roundtrip_total _ _ (by decide) (by decide)]; decide
 
 /-! ## Legacy files -/
 
@@ -456,10 +506,6 @@ example :
 /-- The same page with its pixels cropped by NumPy slicing. -/
 def cropOut {α} (x0 x1 y0 y1 : Option Int) (o : OutPage α) : OutPage α :=
   { o with img := pySlice2 o.img x0 x1 y0 y1 }
-
-/-- Every raw page of the file has `H` rows of `W` pixels. -/
-def File.Shaped {α} (f : File α) (H W : Nat) : Prop :=
-  ∀ p ∈ f.pages, p.img.length = H ∧ ∀ row ∈ p.img, row.length = W
 
 /-- ROI selection (also for legacy files, also after any frame selection).  When
     `stack.crop_by_pixels(x0, x1, y0, y1)` (equally `stack[:, y0:y1, x0:x1]`) is a stack, exporting it writes the
@@ -674,5 +720,562 @@ example :
     let f : File Int := ⟨[⟨10, 18, 18, [[0]]⟩, ⟨20, 28, 28, [[1]]⟩, ⟨35, 43, 43, [[2]]⟩, ⟨45, 53, 53, [[3]]⟩], true⟩
     ((Stack.sliceFrames ⟨0, 4, 1, ⟨0, 1, 0, 1⟩⟩ none none (some 2)).toOption.map fun s' => exportPages s' f)
       = some (.ok [⟨10, 35, 8, [[0]]⟩, ⟨35, 60, 8, [[2]]⟩]) := by decide
+
+/-! ## The exposure survives the float64 `"Exposure time (ms)"` key -/
+
+/-- `export_tiff` writes `(stop − start) · 1e-6` as a double, the reader takes `int(np.round(1e6 · x))`: for every
+    exposure up to `10^15` ns (11.5 days; negative ones too) the reader gets back exactly the exported number of
+    nanoseconds — three double roundings (the literal `1e-6`, two products) cannot move the value by half a ns. -/
+theorem exposure_roundtrip (e : Int) (h : e.natAbs ≤ 10 ^ 15) : exposureNs (exposureMs e) = e :=
+  exposure_roundtrip_core e h
+
+example : (12800000 : Int).natAbs ≤ 10 ^ 15 := by decide
+example : exposureNs (exposureMs 12800000) = 12800000 := by decide +kernel
+
+/-- A bound is necessary (kernel-checked witness, a TEST of one input): at 2.25·10^15 ns the key loses a nanosecond. -/
+theorem exposure_bound_needed : exposureNs (exposureMs 2252445244112521) ≠ 2252445244112521 := by decide +kernel
+
+/-- The number written behind `"Exposure time (ms)"` is the exposure in ms to a relative `2^-51`, for every exposure
+    that is a double (`< 2^53` ns). -/
+theorem exposure_ms_close (e : Int) (h : e.natAbs < 2 ^ 53) :
+    |exposureMs e * 1000000 - e| ≤ |(e : Rat)| * (1 / 2251799813685248) :=
+  exposure_ms_close_core e h
+
+example : (9007199254740991 : Int).natAbs < 2 ^ 53 := by decide
+
+/-- `exposure_times` of `export_tiff`: one value per range, and reading each back gives `stop − start`. -/
+theorem exposure_times_roundtrip (ranges : List (Int × Int)) (h : ∀ r ∈ ranges, (r.2 - r.1).natAbs ≤ 10 ^ 15) :
+    (exposureTimesMs ranges).length = ranges.length ∧
+      (exposureTimesMs ranges).map exposureNs = ranges.map fun r => r.2 - r.1 := by
+  unfold exposureTimesMs
+  refine ⟨List.length_map _, ?_⟩
+  rw [List.map_map]
+  apply List.map_congr_left
+  intro r hr
+  exact exposure_roundtrip _ (h r hr)
+
+example : ∀ r ∈ [((10 : Int), (15 : Int)), (20, 27)], (r.2 - r.1).natAbs ≤ 10 ^ 15 := by decide
+
+/-- Fixed point THROUGH the float key: what the reader reconstructs from the written doubles (`readBackF`) is
+    exported again as the same pages — pixels, DateTime tags, exposures — when every exposure is at most `10^15` ns. -/
+theorem reexport_fixed_point_float {α} (out : List (OutPage α)) (H W : Nat) (hne : out ≠ []) (hu : Uniform out H W)
+    (hexp : ∀ o ∈ out, o.exposure.natAbs ≤ 10 ^ 15) :
+    exportPages (Stack.ofFile (readBackF out)) (readBackF out) = .ok out := by
+  rw [readBackF_eq out hexp]
+  exact reexport_fixed_point out H W hne hu
+
+example :
+    let out : List (OutPage Int) := [⟨10, 20, 5, [[4, 5]]⟩, ⟨20, 35, 7, [[10, 11]]⟩]
+    exportPages (Stack.ofFile (readBackF out)) (readBackF out) = .ok out := by decide +kernel
+
+/-- Export, reopen through the float key, export again: the second file equals the first. -/
+theorem reexport_after_export_float {α} (s : Stack) (f : File α) (H W : Nat) (hf : f.Shaped H W)
+    (hr : s.roi.Within H W) (out : List (OutPage α)) (h : exportPages s f = .ok out)
+    (hexp : ∀ o ∈ out, o.exposure.natAbs ≤ 10 ^ 15) :
+    exportPages (Stack.ofFile (readBackF out)) (readBackF out) = .ok out := by
+  obtain ⟨hu, hne⟩ := export_uniform s f H W hf hr out h
+  exact reexport_fixed_point_float out _ _ hne hu hexp
+
+/-! ## Tuple index, and whole selection programs -/
+
+/-- `stack[f, rows, cols]` is `stack.crop_by_pixels(cols…, rows…)[f]` — refusals included (the crop is tried first);
+    an integer item `k` of the tuple selects `k : k+1`, a stepped slice is refused. -/
+theorem tuple_index_is_crop_then_frames (s : Stack) (f rows cols : Item) (x0 x1 y0 y1 : Option Int)
+    (hr : interpretCrop rows = .ok (y0, y1)) (hc : interpretCrop cols = .ok (x0, x1)) :
+    s.getitemTuple [f, rows, cols] = (s.cropPixels x0 x1 y0 y1).bind fun s' => s'.frameItem f :=
+  tuple_index_eq s f rows cols x0 x1 y0 y1 hr hc
+
+example : interpretCrop (.slice (some 1) none none) = .ok (some 1, none) ∧ interpretCrop (.int 2) = .ok (some 2, some 3) := by
+  decide
+
+/-- Hence `stack[a:b:c, y0:y1, x0:x1]` exports the pages `[a:b:c]` of what `stack` exports, every image cropped to
+    `img[y0:y1, x0:x1]`, and the result again satisfies the hypotheses. -/
+theorem export_selection_tuple {α} (s : Stack) (f : File α) (H W : Nat) (hi : s.Inv f H W) (hleg : f.legacy = false)
+    (hf : f.Shaped H W) (a b c : Option Int) (rows cols : Item) (x0 x1 y0 y1 : Option Int)
+    (hr : interpretCrop rows = .ok (y0, y1)) (hc : interpretCrop cols = .ok (x0, x1)) (s'' : Stack)
+    (h : s.getitemTuple [.slice a b c, rows, cols] = .ok s'') :
+    ∃ out, exportPages s f = .ok out ∧
+      exportPages s'' f = .ok (pySliceStep (out.map (cropOut x0 x1 y0 y1)) a b (c.getD 1).toNat) ∧
+      s''.Inv f H W := by
+  have hinv := getitemTuple_inv s f H W hi _ s'' h
+  rw [tuple_index_eq s _ rows cols x0 x1 y0 y1 hr hc] at h
+  cases hcp : s.cropPixels x0 x1 y0 y1 with
+  | error e => rw [hcp] at h; cases h
+  | ok s' =>
+    rw [hcp] at h
+    have hsl : s'.sliceFrames a b c = .ok s'' := h
+    have hroi := export_selection_roi s f H W hf hi.2.2 x0 x1 y0 y1
+    rw [hcp] at hroi
+    simp only at hroi
+    obtain ⟨hexp, _, hfr, hst⟩ := hroi
+    have hi' := cropPixels_inv s f H W hi x0 x1 y0 y1 s' hcp
+    have hcpos := sliceFrames_ok_step s' hi'.1 a b c s'' hsl
+    have hframes := export_selection_frames s' f hi'.1 hleg hi'.2.1 a b c hcpos
+    rw [hsl] at hframes
+    simp only at hframes
+    obtain ⟨out', ho', hs'', _⟩ := hframes
+    rw [ho'] at hexp
+    cases hs : exportPages s f with
+    | error e => rw [hs] at hexp; cases hexp
+    | ok out =>
+      rw [hs] at hexp
+      have : out' = out.map (cropOut x0 x1 y0 y1) := by
+        simpa [Except.map] using hexp
+      exact ⟨out, rfl, by rw [hs'', this], hinv⟩
+
+/-- The selection a program of public steps describes, on the exported pages (Python / NumPy slicing). -/
+def specOp {α} (out : List (OutPage α)) : Op → Option (List (OutPage α))
+  | .slice a b c => some (pySliceStep out a b (c.getD 1).toNat)
+  | .index i => (pyIndex out i).map fun o => [o]
+  | .crop x0 x1 y0 y1 => some (out.map (cropOut x0 x1 y0 y1))
+  | _ => none
+
+def specRun {α} : List (OutPage α) → List Op → Option (List (OutPage α))
+  | out, [] => some out
+  | out, op :: rest => (specOp out op).bind fun o => specRun o rest
+
+def Op.isBasic : Op → Bool
+  | .slice .. => true
+  | .index .. => true
+  | .crop .. => true
+  | _ => false
+
+/-- Composition at any depth: when a chain of frame slices, integer indices and pixel crops is accepted, exporting
+    the result writes exactly what the same chain of Python / NumPy selections makes of the pages the original stack
+    exports (modern files). -/
+theorem export_program_selection {α} (f : File α) (H W : Nat) (hleg : f.legacy = false) (hf : f.Shaped H W)
+    (ops : List Op) : ∀ (s : Stack), s.Inv f H W → (∀ op ∈ ops, op.isBasic = true) →
+      ∀ out, exportPages s f = .ok out → ∀ s', s.run ops = .ok s' →
+        ∃ out', specRun out ops = some out' ∧ exportPages s' f = .ok out' := by
+  induction ops with
+  | nil =>
+    intro s _ _ out hout s' h
+    unfold Stack.run at h
+    cases h
+    exact ⟨out, rfl, hout⟩
+  | cons op rest ih =>
+    intro s hi hb out hout s' h
+    unfold Stack.run at h
+    cases ha : s.applyOp op with
+    | error e => rw [ha] at h; cases h
+    | ok s1 =>
+      rw [ha] at h
+      have hb1 := hb op (List.mem_cons_self ..)
+      have hi1 : s1.Inv f H W := applyOp_inv s f H W hi op (by cases op <;> first | rfl | cases hb1) s1 ha
+      have hrest := fun o ho => hb o (List.mem_cons_of_mem _ ho)
+      have step : ∃ out1, specOp out op = some out1 ∧ exportPages s1 f = .ok out1 := by
+        cases op with
+        | slice a b c =>
+          have hsl : s.sliceFrames a b c = .ok s1 := ha
+          have hc := sliceFrames_ok_step s hi.1 a b c s1 hsl
+          have h0 := export_selection_frames s f hi.1 hleg hi.2.1 a b c hc
+          rw [hsl] at h0
+          simp only at h0
+          obtain ⟨out0, ho0, hs1, _⟩ := h0
+          rw [hout] at ho0
+          cases ho0
+          exact ⟨_, rfl, hs1⟩
+        | index i =>
+          have hix : s.index i = .ok s1 := ha
+          have h0 := export_selection_index s f hi.1 hleg hi.2.1 i
+          rw [hix] at h0
+          simp only at h0
+          obtain ⟨out0, o, ho0, hpi, hs1⟩ := h0
+          rw [hout] at ho0
+          cases ho0
+          exact ⟨[o], by simp [specOp, hpi], hs1⟩
+        | crop x0 x1 y0 y1 =>
+          have hcp : s.cropPixels x0 x1 y0 y1 = .ok s1 := ha
+          have h0 := export_selection_roi s f H W hf hi.2.2 x0 x1 y0 y1
+          rw [hcp] at h0
+          simp only at h0
+          refine ⟨_, rfl, ?_⟩
+          rw [h0.1, hout]
+          rfl
+        | tuple items => cases hb1
+        | dataset a b c => cases hb1
+      obtain ⟨out1, hspec, hexp1⟩ := step
+      obtain ⟨out', hs', he'⟩ := ih s1 hi1 hrest out1 hexp1 s' h
+      exact ⟨out', by unfold specRun; rw [hspec]; exact hs', he'⟩
+
+/-- The hypotheses of the selection and re-export theorems are ESTABLISHED by the code: opening a well-shaped,
+    non-empty file and running ANY accepted chain of public selections (slices, indices, crops, tuple indices, to any
+    depth) yields a stack with a positive step, inside the file, with a non-empty ROI inside the image. -/
+theorem program_establishes_hypotheses {α} (f : File α) (H W : Nat) (hf : f.Shaped H W) (hne : f.pages ≠ [])
+    (hH : 0 < H) (hW : 0 < W) (ops : List Op) (hp : ∀ op ∈ ops, op.isPublic = true) (s : Stack)
+    (h : (Stack.ofFile f).run ops = .ok s) :
+    0 < s.st ∧ s.inFile f.pages.length = true ∧ s.roi.Within H W :=
+  run_inv f H W ops _ (ofFile_inv f H W hf hne hH hW) hp s h
+
+/-- Export → reopen (through the float exposure key) → export is the identity on the written pages, for every
+    accepted chain of public selections on every well-shaped file, legacy or not, with exposures up to `10^15` ns —
+    no hypothesis on the state any more. -/
+theorem program_reexport {α} (f : File α) (H W : Nat) (hf : f.Shaped H W) (hne : f.pages ≠ [])
+    (hH : 0 < H) (hW : 0 < W) (ops : List Op) (hp : ∀ op ∈ ops, op.isPublic = true) (s : Stack)
+    (h : (Stack.ofFile f).run ops = .ok s) (out : List (OutPage α)) (hout : exportPages s f = .ok out)
+    (hexp : ∀ o ∈ out, o.exposure.natAbs ≤ 10 ^ 15) :
+    exportPages (Stack.ofFile (readBackF out)) (readBackF out) = .ok out :=
+  reexport_after_export_float s f H W hf (program_establishes_hypotheses f H W hf hne hH hW ops hp s h).2.2 out hout hexp
+
+
+/-- Non-vacuity: a 4-page file of 2×3 pixels, `stack[1::2]`, then `[:, 1:, -2:]` as a tuple, then `[-1]`. -/
+def demoFile : File Int := ⟨[⟨10, 18, 15, [[0, 1, 2], [3, 4, 5]]⟩, ⟨20, 28, 25, [[6, 7, 8], [9, 10, 11]]⟩,
+  ⟨30, 38, 35, [[12, 13, 14], [15, 16, 17]]⟩, ⟨40, 48, 45, [[18, 19, 20], [21, 22, 23]]⟩], false⟩
+
+example : demoFile.Shaped 2 3 := by
+  intro p hp
+  simp [demoFile] at hp
+  rcases hp with rfl | rfl | rfl | rfl <;> simp
+
+example : (Stack.ofFile demoFile).run [.slice (some 1) none (some 2), .tuple [.slice none none none, .slice (some 1) none none,
+    .slice (some (-2)) none none], .index (-1)] = .ok ⟨3, 5, 2, ⟨1, 3, 1, 2⟩⟩ := by decide
+
+example : exportPages ⟨3, 5, 2, ⟨1, 3, 1, 2⟩⟩ demoFile = .ok [⟨40, 48, 5, [[22, 23]]⟩] := by decide
+
+example : (Stack.ofFile demoFile).getitemTuple [.slice (some 1) none (some 2), .slice (some 1) none none, .int 0]
+    = .ok ⟨1, 4, 2, ⟨0, 1, 1, 2⟩⟩ := by decide
+
+example :
+    let ops : List Op := [.slice (some 1) none (some 2), .crop (some (-2)) none (some 1) none, .index (-1)]
+    (∀ op ∈ ops, op.isBasic = true) ∧
+    ((exportPages (Stack.ofFile demoFile) demoFile).toOption.bind fun out => specRun out ops)
+      = some [⟨40, 48, 5, [[22, 23]]⟩] ∧
+    (((Stack.ofFile demoFile).run ops).toOption.bind fun s' => (exportPages s' demoFile).toOption)
+      = some [⟨40, 48, 5, [[22, 23]]⟩] := by
+  decide +kernel
+
+/-! ## Legacy files under selection programs -/
+
+/-- The pages a program of basic steps selects (Python slicing of the page list; a crop keeps the pages). -/
+def specVis {α} (v : List (Page α)) : Op → Option (List (Page α))
+  | .slice a b c => some (pySliceStep v a b (c.getD 1).toNat)
+  | .index i => (pyIndex v i).map fun p => [p]
+  | .crop .. => some v
+  | _ => none
+
+def specRunVis {α} : List (Page α) → List Op → Option (List (Page α))
+  | v, [] => some v
+  | v, op :: rest => (specVis v op).bind fun o => specRunVis o rest
+
+/-- Legacy or not: after any accepted chain of slices, indices and crops the stack looks at exactly the pages the
+    same chain of Python selections picks from the pages it looked at before. -/
+theorem program_visible {α} (f : File α) (ops : List Op) : ∀ (s : Stack), 0 < s.st →
+    (∀ op ∈ ops, op.isBasic = true) → ∀ s', s.run ops = .ok s' →
+      ∃ v, specRunVis (s.visible f) ops = some v ∧ s'.visible f = v ∧ 0 < s'.st := by
+  induction ops with
+  | nil =>
+    intro s hst _ s' h
+    unfold Stack.run at h
+    cases h
+    exact ⟨_, rfl, rfl, hst⟩
+  | cons op rest ih =>
+    intro s hst hb s' h
+    unfold Stack.run at h
+    cases ha : s.applyOp op with
+    | error e => rw [ha] at h; cases h
+    | ok s1 =>
+      rw [ha] at h
+      have hb1 := hb op (List.mem_cons_self ..)
+      have hrest := fun o ho => hb o (List.mem_cons_of_mem _ ho)
+      have step : ∃ v1, specVis (s.visible f) op = some v1 ∧ s1.visible f = v1 ∧ 0 < s1.st := by
+        cases op with
+        | slice a b c =>
+          have hsl : s.sliceFrames a b c = .ok s1 := ha
+          have hc := sliceFrames_ok_step s hst a b c s1 hsl
+          obtain ⟨hv, _, hst1⟩ := visible_selection s f hst a b c hc s1 hsl
+          exact ⟨_, rfl, hv, hst1⟩
+        | index i =>
+          have hix : s.index i = .ok s1 := ha
+          have h0 := index_refines s hst i
+          rw [hix] at h0
+          cases hp : pyIndex s.frames i with
+          | none => rw [hp] at h0; exact absurd h0 id
+          | some p =>
+            rw [hp] at h0
+            simp only at h0
+            obtain ⟨hfr, hst', _⟩ := h0
+            refine ⟨[f.pages.getD p.toNat Page.blank], ?_, ?_, by rw [hst']; exact hst⟩
+            · show (pyIndex (s.visible f) i).map (fun p => [p]) = _
+              unfold Stack.visible
+              rw [pyIndex_map, hp]; rfl
+            · unfold Stack.visible; rw [hfr]; rfl
+        | crop x0 x1 y0 y1 =>
+          have hcp : s.cropPixels x0 x1 y0 y1 = .ok s1 := ha
+          unfold Stack.cropPixels at hcp
+          cases hc : s.roi.crop x0 x1 y0 y1 with
+          | error e => rw [hc] at hcp; cases hcp
+          | ok r =>
+            rw [hc] at hcp
+            cases hcp
+            exact ⟨_, rfl, rfl, hst⟩
+        | tuple items => cases hb1
+        | dataset a b c => cases hb1
+      obtain ⟨v1, hspec, hv1, hst1⟩ := step
+      obtain ⟨v, hs', hv, hst'⟩ := ih s1 hst1 hrest s' h
+      refine ⟨v, ?_, hv, hst'⟩
+      unfold specRunVis
+      rw [hspec, ← hv1]
+      exact hs'
+
+/-- Hence for a legacy file: whatever chain of selections was applied, the DateTime tags of the export are the frame
+    ranges reconstructed (own start to next start) from the SELECTED pages, the exposures are their old DateTime spans. -/
+theorem legacy_program_tags {α} (f : File α) (hleg : f.legacy = true) (ops : List Op)
+    (hb : ∀ op ∈ ops, op.isBasic = true) (s s' : Stack) (hst : 0 < s.st) (h : s.run ops = .ok s')
+    (out : List (OutPage α)) (hout : exportPages s' f = .ok out) :
+    ∃ v, specRunVis (s.visible f) ops = some v ∧
+      legacyRanges (v.map fun p => (p.start, p.stop)) = some (out.map fun o => (o.start, o.stop)) ∧
+      out.map (·.exposure) = v.map (fun p => p.expStop - p.start) := by
+  obtain ⟨v, hv, hvis, _⟩ := program_visible f ops s hst hb s' h
+  obtain ⟨h1, h2, _⟩ := export_legacy_tags s' f hleg out hout
+  rw [hvis] at h1 h2
+  exact ⟨v, hv, h1, h2⟩
+
+example :
+    let f : File Int := ⟨[⟨10, 18, 18, [[0]]⟩, ⟨20, 28, 28, [[1]]⟩, ⟨35, 43, 43, [[2]]⟩, ⟨45, 53, 53, [[3]]⟩, ⟨60, 68, 68, [[4]]⟩], true⟩
+    let ops : List Op := [.slice none none (some 2), .slice (some 1) none none]
+    (((Stack.ofFile f).run ops).toOption.bind fun s' => (exportPages s' f).toOption)
+      = some [⟨35, 60, 8, [[2]]⟩, ⟨60, 85, 8, [[4]]⟩] := by decide +kernel
+
+/-! ## A kymograph is exported as one frame from its first line to its last -/
+
+/-- `Kymo._tiff_timestamp_ranges` (with and without dead time): the frame written is `(min, max)` over ALL starts and
+    stops of the line ranges — both are endpoints of some line and bound every endpoint. -/
+theorem kymo_frame_range (lines : List (Int × Int)) (hne : lines ≠ []) :
+    ∃ lo hi, kymoRange lines = some (lo, hi) ∧ lo ∈ endpoints lines ∧ hi ∈ endpoints lines ∧
+      ∀ v ∈ endpoints lines, lo ≤ v ∧ v ≤ hi :=
+  kymoRange_spec lines hne
+
+/-- For lines in time order with `start ≤ stop` (what `line_timestamp_ranges` returns) that frame is
+    `(start of the first line, stop of the last line)`; the min / max over everything is only a detour. -/
+theorem kymo_frame_range_ordered (l : List (Int × Int)) (hne : l ≠ []) (hwf : ∀ r ∈ l, r.1 ≤ r.2)
+    (hs : l.Pairwise fun r s => r.1 ≤ s.1 ∧ r.2 ≤ s.2) :
+    kymoRange l = some ((l.head hne).1, (l.getLast hne).2) :=
+  kymoRange_ordered l hne hwf hs
+
+example : kymoRange [(10, 18), (20, 28), (30, 38)] = some (10, 38) := by decide
+example : (∀ r ∈ [((10 : Int), (18 : Int)), (20, 28), (30, 38)], r.1 ≤ r.2) ∧
+    [((10 : Int), (18 : Int)), (20, 28), (30, 38)].Pairwise (fun r s => r.1 ≤ s.1 ∧ r.2 ≤ s.2) := by decide
+/-- No lines: NumPy's `min` of an empty array raises (`ValueError`). -/
+example : kymoRange [] = none := rfl
+
+/-! ## `export_tiff` as a whole -/
+
+/-- No timestamp ranges: `RuntimeError("Can't export TIFF if there are no images")`, before anything else is looked at. -/
+theorem export_tiff_no_images (dtype : Option DType) (clip : Bool) (frames : List (List Rat)) (exp : List (Int × Int)) :
+    exportTiff dtype clip frames [] exp = .error .runtime := rfl
+
+/-- The refusal is global: with a dtype and without `clip`, ONE value that does not fit — in whichever frame — and
+    no page at all is written. -/
+theorem export_tiff_all_or_nothing (d : DType) (frames : List (List Rat)) (dead exp : List (Int × Int))
+    (hd : dead ≠ []) (hne : frames.flatten ≠ []) (hbad : ¬ ∀ v ∈ frames.flatten, InRange d v) :
+    exportTiff (some d) false frames dead exp = .error .runtime := by
+  have h1 := castFrames_flatten d false frames
+  rw [cast_refuses d frames.flatten hne hbad] at h1
+  have h2 : castFrames d false frames = .error .runtime := by
+    cases hc : castFrames d false frames with
+    | error e => rw [hc] at h1; simp [Except.map] at h1; rw [h1]
+    | ok fr => rw [hc] at h1; simp [Except.map] at h1
+  unfold exportTiff framesWritten
+  rw [if_neg (by intro h0; exact hd (List.eq_nil_of_length_eq_zero h0))]
+  simp only [h2]
+
+/-- One page per element of `zip(frames, ranges, exposure_times)`: the shortest of the three decides. -/
+theorem export_tiff_page_count (dtype : Option DType) (clip : Bool) (frames : List (List Rat))
+    (dead exp : List (Int × Int)) (pages : List TiffPage) (h : exportTiff dtype clip frames dead exp = .ok pages) :
+    pages.length = min frames.length (min dead.length exp.length) := by
+  obtain ⟨_, _, fr, hfr, rfl⟩ := exportTiff_ok dtype clip frames dead exp pages h
+  have := framesWritten_length dtype clip frames fr hfr
+  simp [exposureTimesMs, this]
+
+/-- The round trip of one export at the level of the mixin: when the hooks return as many ranges as frames, every
+    frame gets a page; reading the page's DateTime tag gives back its frame range (with dead time), reading its
+    `"Exposure time (ms)"` gives back `stop − start` of its exposure range (without dead time), and its pixels are the
+    cast of that frame — for all non-negative int64 timestamps and exposures up to `10^15` ns. -/
+theorem export_tiff_roundtrip (dtype : Option DType) (clip : Bool) (frames : List (List Rat))
+    (dead exp : List (Int × Int)) (pages : List TiffPage) (h : exportTiff dtype clip frames dead exp = .ok pages)
+    (hl1 : frames.length = dead.length) (hl2 : exp.length = dead.length)
+    (hd : ∀ r ∈ dead, 0 ≤ r.1 ∧ r.1 < 2 ^ 63 ∧ 0 ≤ r.2 ∧ r.2 < 2 ^ 63)
+    (he : ∀ r ∈ exp, (r.2 - r.1).natAbs ≤ 10 ^ 15) :
+    pages.map (fun p => decodeRange p.dt) = dead.map .ok ∧
+      pages.map (fun p => exposureNs p.ms) = exp.map (fun r => r.2 - r.1) ∧
+      framesWritten dtype clip frames = .ok (pages.map (·.img)) := by
+  obtain ⟨_, _, fr, hfr, rfl⟩ := exportTiff_ok dtype clip frames dead exp pages h
+  have hlen := framesWritten_length dtype clip frames fr hfr
+  obtain ⟨hmslen, hms⟩ := exposure_times_roundtrip exp he
+  have hz2 : (dead.zip (exposureTimesMs exp)).length = dead.length := by
+    rw [List.length_zip, hmslen, hl2]; exact Nat.min_self _
+  have p1 : (fr.zip (dead.zip (exposureTimesMs exp))).map Prod.snd = dead.zip (exposureTimesMs exp) :=
+    List.map_snd_zip (by rw [hz2, hlen, hl1])
+  have p0 : (fr.zip (dead.zip (exposureTimesMs exp))).map Prod.fst = fr :=
+    List.map_fst_zip (by rw [hz2, hlen, hl1])
+  have p2 : (dead.zip (exposureTimesMs exp)).map Prod.fst = dead :=
+    List.map_fst_zip (by rw [hmslen, hl2])
+  have p3 : (dead.zip (exposureTimesMs exp)).map Prod.snd = exposureTimesMs exp :=
+    List.map_snd_zip (by rw [hmslen, hl2])
+  refine ⟨?_, ?_, ?_⟩
+  · rw [List.map_map]
+    have : ∀ t ∈ fr.zip (dead.zip (exposureTimesMs exp)),
+        ((fun p : TiffPage => decodeRange p.dt) ∘ fun t : List Rat × (Int × Int) × Rat =>
+          (⟨encodeRange t.2.1.1 t.2.1.2, t.2.2, t.1⟩ : TiffPage)) t = (Except.ok ∘ Prod.fst ∘ Prod.snd) t := by
+      intro t ht
+      have hm : t.2.1 ∈ dead := by
+        have h2 : t.2 ∈ dead.zip (exposureTimesMs exp) := (List.of_mem_zip (a := t.1) (b := t.2) ht).2
+        exact (List.of_mem_zip (a := t.2.1) (b := t.2.2) h2).1
+      obtain ⟨a0, a1, b0, b1⟩ := hd _ hm
+      simp only [Function.comp]
+      exact datetime_roundtrip _ _ a0 b0 a1 b1
+    rw [List.map_congr_left this, ← List.map_map, ← List.map_map, p1, p2]
+  · rw [List.map_map]
+    have : ((fun p : TiffPage => exposureNs p.ms) ∘ fun t : List Rat × (Int × Int) × Rat =>
+        (⟨encodeRange t.2.1.1 t.2.1.2, t.2.2, t.1⟩ : TiffPage)) = exposureNs ∘ Prod.snd ∘ Prod.snd := rfl
+    rw [this, ← List.map_map, ← List.map_map, p1, p3, hms]
+  · rw [List.map_map]
+    have : ((fun p : TiffPage => p.img) ∘ fun t : List Rat × (Int × Int) × Rat =>
+        (⟨encodeRange t.2.1.1 t.2.1.2, t.2.2, t.1⟩ : TiffPage)) = Prod.fst := rfl
+    rw [this, p0, hfr]
+
+/-- Non-vacuity / the statements on one input: two frames, the second holds 300. -/
+example : exportTiff (some .u8) false [[1, 2], [3, 300]] [(10, 20), (20, 30)] [(10, 15), (20, 25)] = .error .runtime := by
+  decide +kernel
+example : (exportTiff (some .u8) true [[1, 2], [3, 300]] [(10, 20), (20, 30)] [(10, 15), (20, 27)]).toOption.map
+    (fun pages => (pages.map (·.img), pages.map (fun p => decodeRange p.dt), pages.map (fun p => exposureNs p.ms)))
+    = some ([[1, 2], [3, 255]], [.ok (10, 20), .ok (20, 30)], [5, 7]) := by decide +kernel
+/-- `zip` stops at the shortest list: a third frame without a range is silently not written (the providers of pylake
+    always return one range per frame; see `export_tiff_roundtrip` for that case). -/
+example : (exportTiff none false [[1], [2], [3]] [(10, 20), (20, 30)] [(10, 15), (20, 25)]).toOption.map List.length
+    = some 2 := by decide +kernel
+
+/-- The pixels of all written pages, in order, are `cast_image` of all frames' values in order: the element-wise
+    theorems (`cast_never_wraps`, `cast_f32_close`, …) hold for every page of an export. -/
+theorem export_tiff_pixels (d : DType) (clip : Bool) (frames : List (List Rat)) (dead exp : List (Int × Int))
+    (pages : List TiffPage) (h : exportTiff (some d) clip frames dead exp = .ok pages)
+    (hl1 : frames.length = dead.length) (hl2 : exp.length = dead.length) :
+    castImage d clip frames.flatten = .ok (pages.map (·.img)).flatten := by
+  obtain ⟨_, _, fr, hfr, rfl⟩ := exportTiff_ok (some d) clip frames dead exp pages h
+  have hlen := framesWritten_length (some d) clip frames fr hfr
+  have hz2 : (dead.zip (exposureTimesMs exp)).length = dead.length := by
+    rw [List.length_zip]; simp [exposureTimesMs, hl2]
+  have p0 : (fr.zip (dead.zip (exposureTimesMs exp))).map Prod.fst = fr :=
+    List.map_fst_zip (by rw [hz2, hlen, hl1])
+  rw [List.map_map]
+  have : ((fun p : TiffPage => p.img) ∘ fun t : List Rat × (Int × Int) × Rat =>
+      (⟨encodeRange t.2.1.1 t.2.1.2, t.2.2, t.1⟩ : TiffPage)) = Prod.fst := rfl
+  rw [this, p0, ← castFrames_flatten]
+  have hc : castFrames d clip frames = .ok fr := hfr
+  rw [hc]; rfl
+
+/-! ## The stack export is the mixin export on the stack's hooks -/
+
+/-- `ImageStack.export_tiff` IS `TiffExport.export_tiff` on what `ImageStack._tiff_frames / _tiff_timestamp_ranges`
+    return (`dtype=None`, no cast): the stack-level model `exportPages` and the mixin-level model `exportTiff` agree,
+    page by page and refusal by refusal — so the mixin theorems (`export_tiff_roundtrip`, …) speak about stacks too. -/
+theorem stack_export_is_mixin_export (s : Stack) (f : File Rat) (rd re : List (Int × Int))
+    (hin : s.inFile f.pages.length = true) (hd : s.ranges f true = some rd) (he : s.ranges f false = some re) :
+    exportTiff none false ((s.visible f).map fun p => (s.roi.apply p.img).flatten) rd re =
+      (exportPages s f).map (List.map toTiff) := by
+  have l1 := ranges_length s f true rd hd
+  have l2 := ranges_length s f false re he
+  unfold exportPages exportTiff framesWritten
+  rw [hin, hd, he]
+  simp only [Bool.not_true, Bool.false_eq_true, if_false]
+  by_cases h0 : rd.length = 0
+  · rw [if_pos h0, if_pos h0]; rfl
+  · rw [if_neg h0, if_neg h0]
+    rw [if_neg (by omega)]
+    simp only [Except.map]
+    rw [zipPages_toTiff, List.map_map]
+    rfl
+
+example :
+    let f : File Rat := ⟨[⟨10, 18, 15, [[0, 1], [2, 3]]⟩, ⟨20, 28, 25, [[4, 5], [6, 7]]⟩], false⟩
+    Stack.ranges ⟨0, 2, 1, ⟨0, 2, 0, 2⟩⟩ f true = some [(10, 18), (20, 28)] ∧
+    Stack.ranges ⟨0, 2, 1, ⟨0, 2, 0, 2⟩⟩ f false = some [(10, 15), (20, 25)] := by decide +kernel
+
+/-! ## The Software tag is stable under re-export; legacy files are recognised by it -/
+
+/-- Exporting an exported file does not touch the Software tag again: `ImageStack._tiff_writer_kwargs` appends
+    `Pylake v<version>` once, whatever the tag was (any spelling of "pylake" counts as present). -/
+theorem software_tag_fixed_point (sw ver : List Char) :
+    softwareOut (softwareOut sw ver) ver = softwareOut sw ver :=
+  softwareOut_idem sw ver
+
+/-- The original Software text is kept in front, and afterwards the tag names pylake. -/
+theorem software_tag_keeps_original (sw ver : List Char) :
+    (∃ t, softwareOut sw ver = sw ++ t) ∧ hasSub "pylake".toList ((softwareOut sw ver).map lowerAscii) = true :=
+  ⟨softwareOut_prefix sw ver, softwareOut_marked sw ver⟩
+
+example : softwareOut "Bluelake 2.5".toList "1.5.0".toList = "Bluelake 2.5, Pylake v1.5.0".toList := by decide
+example : softwareOut "".toList "1.5.0".toList = "Pylake v1.5.0".toList := by decide
+example : softwareOut "Bluelake, PYLAKE x".toList "1.5.0".toList = "Bluelake, PYLAKE x".toList := by decide
+
+/-- `_legacy_exposure` is exactly: the (case-sensitive) word `Pylake` occurs in the Software tag and the page has no
+    `"Exposure time (ms)"` key. -/
+theorem legacy_detection_spec (sw : List Char) (key : Bool) :
+    legacyExposure sw key = true ↔ key = false ∧ ∃ pre post, sw = pre ++ "Pylake".toList ++ post := by
+  unfold legacyExposure
+  rw [Bool.and_eq_true, hasSub_iff]
+  cases key <;> simp
+
+/-- What `export_tiff` writes is never taken for a legacy file (it always carries the exposure key) — while without
+    the key the very tag it writes would make it one (kernel-checked instance): the key is what keeps the DateTime
+    tags meaning "frame range" on re-reading. -/
+theorem exported_file_not_legacy (sw ver : List Char) : legacyExposure (softwareOut sw ver) true = false := by
+  unfold legacyExposure; simp
+
+example : legacyExposure (softwareOut "Bluelake 2.5".toList "1.5.0".toList) false = true := by decide
+
+/-! ## Alignment is applied once: the description keys under export and re-export -/
+
+
+/-- Exporting an aligned stack marks the matrices as applied: on re-reading (whatever is requested) no alignment is
+    performed a second time. -/
+theorem exported_alignment_is_applied (keys : List (List Char)) (h : alignStatus true keys = .ready) (req2 : Bool) :
+    alignStatus true (forExportKeys true true keys) = .applied ∧
+      doAlignment req2 (alignStatus true (forExportKeys true true keys)) = false := by
+  have hc := ((ready_iff true keys).mp h).2
+  have hs : alignStatus true (forExportKeys true true keys) = .applied := by
+    unfold forExportKeys doAlignment
+    rw [h, status_addPylake]
+    simp only [beq_self_eq_true, Bool.and_self, if_true]
+    exact status_renamed keys hc
+  refine ⟨hs, ?_⟩
+  rw [hs]; unfold doAlignment; rfl
+
+/-- The description keys are a fixed point of re-export (same `align` request). -/
+theorem for_export_fixed_point (rgb req : Bool) (keys : List (List Char)) :
+    forExportKeys rgb req (forExportKeys rgb req keys) = forExportKeys rgb req keys := by
+  by_cases hd : doAlignment req (alignStatus rgb keys) = true
+  · have hready : alignStatus rgb keys = .ready := by
+      unfold doAlignment at hd
+      rw [Bool.and_eq_true] at hd
+      exact eq_of_beq hd.1
+    obtain ⟨hrgb, hc⟩ := (ready_iff rgb keys).mp hready
+    subst hrgb
+    have hreq : req = true := by
+      unfold doAlignment at hd; rw [Bool.and_eq_true] at hd; exact hd.2
+    subst hreq
+    have h2 := (exported_alignment_is_applied keys hready true).2
+    have hk : ∃ k0, forExportKeys true true keys = addPylake k0 := ⟨_, rfl⟩
+    generalize forExportKeys true true keys = k at h2 hk ⊢
+    obtain ⟨k0, rfl⟩ := hk
+    unfold forExportKeys
+    rw [h2]
+    simp only [Bool.false_eq_true, if_false]
+    exact addPylake_idem _
+  · have hd' : doAlignment req (alignStatus rgb keys) = false := by simpa using hd
+    have e1 : forExportKeys rgb req keys = addPylake keys := by
+      unfold forExportKeys; rw [hd']; rfl
+    rw [e1]
+    unfold forExportKeys
+    rw [status_addPylake, hd']
+    simp only [Bool.false_eq_true, if_false]
+    exact addPylake_idem _
+
+
+example : alignStatus true ["Camera".toList, c0Key, c1Key, c2Key] = .ready := by decide
+example : forExportKeys true true ["Camera".toList, c0Key, c1Key, c2Key] = ["Camera".toList, a0Key, a1Key, a2Key, pylakeKey] := by
+  decide
+/-- Not requested: the matrices stay "to be applied" (a later reader may still align). -/
+example : forExportKeys true false ["Camera".toList, c0Key, c1Key] = ["Camera".toList, c0Key, c1Key, pylakeKey] := by decide
 
 end Verif.C18
